@@ -17,5 +17,7 @@ From Chess3 Require Export Spec.FenSpec.
 From Chess3 Require Export Model.AttacksStream.
 From Chess3 Require Export Model.SeeStreams.
 From Chess3 Require Export Spec.SearchObs Model.Pv Model.IterDeepen.
+From Chess3 Require Export Model.Rep3Stream.
+From Chess3 Require Export Spec.RepJudge.
 
 Extraction Language OCaml.
